@@ -77,3 +77,10 @@ _search("C07", ["c07"], [], "", "")
 _search("C08", ["c08"], [], "", "")
 _search("C09", ["c09"], [], "", "")
 _search("C10", ["c10"], [], "", "")
+
+CONT_RULE = ("enumerated small inputs (all digraphs on <=3/4 nodes for scc; all connect sequences on <=3 nodes for serde; all single structural "
+             "mutations of seed documents; all container histories over a small alphabet) plus seeded random ones; every order-dependent call is "
+             "annotated with the hash map's iteration order observed in the implementation and the model is evaluated under that order. One case = "
+             "one graph/document/history; distinct_nontrivial = number of cases.")
+for _p, _o in [("C11", ["c11"]), ("C12", ["c12"]), ("C13", ["c13"]), ("C18", ["c18"])]:
+    PROPS[_p] = {"theorems": [], "oracles": _o, "rule": CONT_RULE, "exhaustive": True, "level_text": "", "level_note": CORR_NOTE, "technique": "", "design_ref": "DESIGN.md section 7, " + _p}
